@@ -81,17 +81,14 @@ Section Sink.
   Proof.
     destruct st as [[sink buf] failed]. unfold sink_inv, fbs_release, fbs_conv. destruct failed.
     - intros [H1 H2].
-      assert (length sink = room) as Hl by (rewrite H1; apply firstn_length_le; lia).
       replace (Nat.leb (length (F d)) room) with false by (symmetry; apply Nat.leb_gt; exact H2).
-      destruct (Nat.leb_spec (length sink + length (F buf)) room) as [L|L]; cbn [andb negb].
-      + destruct (F buf) as [|x l]; [|cbn [length] in L; lia].
-        rewrite app_nil_r. rewrite H1. reflexivity.
-      + rewrite firstn_app_le by lia. rewrite firstn_all2 by lia. rewrite H1. reflexivity.
+      rewrite H1. reflexivity.
     - intros [H1 H2]. rewrite <- H1, app_length.
-      destruct (Nat.leb_spec (length sink + length (F buf)) room) as [L|L]; cbn [andb negb].
+      destruct (Nat.leb_spec (length sink + length (F buf)) room) as [L|L].
       + rewrite firstn_all2 by (rewrite app_length; exact L). reflexivity.
       + reflexivity.
   Qed.
+
 
   Lemma fbs_run_additive_sec pieces :
     fbs_run F room pieces = (firstn room (F (concat pieces)), Nat.leb (length (F (concat pieces))) room).
@@ -164,8 +161,7 @@ Proof. induction pieces as [|p ps IH]; intros sink buf; [reflexivity|]. cbn [fol
 Lemma fbs_run_failed_nothing (F : list N -> list N) (room : nat) :
   (forall a b, F (a ++ b) = F a ++ F b) -> forall pieces, fbs_run_failed F room pieces = ([], false).
 Proof.
-  intros Hadd pieces. unfold fbs_run_failed. rewrite fbs_failed_pieces.
-  unfold fbs_release, fbs_conv. rewrite (additive_nil F Hadd). cbn. reflexivity.
+  intros Hadd pieces. unfold fbs_run_failed. rewrite fbs_failed_pieces. reflexivity.
 Qed.
 Lemma filter_on_failed_stream_nothing v :
   filter_on_failed_stream escape v = ([], false) /\ filter_on_failed_stream urlencode v = ([], false) /\
